@@ -25,7 +25,7 @@ import eqlgen as G
 from core import Case, CheckBroken, Driver
 
 PID = "C11"
-LEAN_MODULES = ["KrroodVerif.Props.C11"]
+LEAN_MODULES = ["KrroodVerif.Props.C11", "KrroodVerif.Props.C11T"]
 THEOREMS = [
     "KrroodVerif.Match.C11_equiv_partial",
     "KrroodVerif.Match.C11_model_eq_spec_partial",
@@ -48,7 +48,61 @@ THEOREMS = [
     "KrroodVerif.Match.C11_cex_subclass_attribute",
     "KrroodVerif.Match.C11_cex_lazy_flatten",
     "KrroodVerif.Match.C11_cex_falsy_value",
+    # the desugaring as a table interpreter (Model/MatchTable.lean, Props/C11T.lean): second tie by translation
+    "KrroodVerif.Match.tableOk_table",
+    "KrroodVerif.Match.desugar_eq_interp",
+    "KrroodVerif.Match.desugar_eq_interp_table",
+    "KrroodVerif.Match.resolveAssignsWith_eq",
+    "KrroodVerif.Match.C11_equiv_of_tableOk",
+    "KrroodVerif.Match.C11_full_of_tableOk",
+    "KrroodVerif.Match.C11T_cex_tables",
 ]
+TRANSLATED = [
+    "KrroodVerif.Match.Translated.C11_table_translated_eq_model",
+    "KrroodVerif.Match.Translated.C11_table_translated_ok",
+    "KrroodVerif.Match.Translated.C11_translated_meets_property",
+]
+
+
+def extra_obligations():
+    """Second tie: regenerate the decision table of the desugaring from /repo's CURRENT `match.py` (Python ast, truth
+    tables of the source's own Boolean expressions) and have the kernel re-check that it equals the model's table
+    (`Match.table`; `desugar_eq_interp`: the interpreter run on a `TableOk` table builds the query `desugar Quirks.now`
+    builds, for every pattern) and that it is `TableOk`."""
+    import re
+    import subprocess
+    import core
+    from translate.c11_translate import generate as gen, TranslationError
+    try:
+        text = gen(core.REPO)
+    except (TranslationError, SyntaxError, OSError, RecursionError) as e:
+        return [{"name": n, "ok": False, "detail": f"translator rejected the source: {e}"} for n in TRANSLATED]
+    tmp = core.LEAN_DIR / ".lake" / "audit"
+    tmp.mkdir(parents=True, exist_ok=True)
+    f = tmp / f"C11Translated_{os.getpid()}.lean"
+    f.write_text(text + "".join(f"#print axioms {n}\n" for n in TRANSLATED))
+    try:
+        p = subprocess.run(["lake", "env", "lean", str(f)], cwd=str(core.LEAN_DIR), capture_output=True, text=True,
+                           timeout=600)
+    finally:
+        try:
+            f.unlink()
+        except OSError:
+            pass
+    out = " ".join(((p.stdout or "") + (p.stderr or "")).split())
+    res = []
+    for n in TRANSLATED:
+        m = re.search(r"'" + re.escape(n) + r"' depends on axioms: \[([^\]]*)\]", out)
+        none = re.search(r"'" + re.escape(n) + r"' does not depend on any axioms", out)
+        ax = [a.strip() for a in m.group(1).split(",")] if m else ([] if none else None)
+        # an error in one theorem must not hide the verdict of the others: Lean reports per declaration
+        failed = re.search(r"error[^']*" + re.escape(n.rsplit(".", 1)[1]), out) is not None
+        ok = ax is not None and set(ax) <= core.ALLOWED_AXIOMS and not failed and "sorryAx" not in (m.group(1) if m else "")
+        res.append({"name": n, "ok": ok, "axioms": ax,
+                    "detail": "regenerated table:\n" + text[text.find("def table"):text.find("/-- the decisions")]
+                              + (p.stdout or "")[-1500:] + (p.stderr or "")[-800:]})
+    return res
+
 MODEL_FUNCTION = ("Match.run with Quirks.now (F-C11-3..6 repaired, F-C11-1/2 open) = Match.desugar (Match._resolve, AttributeAssignment.resolve, "
                   "infer_condition_between_attribute_and_assigned_value) + Match.evalQuery/evalCond/evalT "
                   "(Model/Match.lean, on the value level of Model/Eql.lean)")
